@@ -1,6 +1,6 @@
 (* C01Witness5.v — esds: a typical AAC esds (ES_Descriptor{DecoderConfig{DecSpecificInfo}, SLConfig}) decodes inside
-   the model, is exact and a fixed point; the same box with an SLConfigDescriptor announcing 0 bytes is accepted by
-   the decoder, which reads the configuration byte anyway and writes the size back as 1 (known finding). *)
+   the model, is exact and a fixed point; the same box with an SLConfigDescriptor announcing 0 bytes was accepted by
+   the decoder, which read the configuration byte anyway and wrote the size back as 1 (finding C01-K77, repaired). *)
 From V.lib Require Import Base.
 From V.c01 Require Import C01Codec C01Model C01Witness C01Witness3.
 
@@ -17,5 +17,11 @@ Lemma ex_esds_ok : bytes_ok (ex_esds 1) = true /\ decode (ex_esds 1) = Ok (treeo
   end.
 Proof. vm_compute. repeat split. Qed.
 
-Lemma esds_slc0_refuted : refutes (ex_esds 0) [(n_esds, RGuard); (n_esds, RRsv false 3)].
-Proof. refute (ex_esds 0). Qed.
+(* since repo commit 89e24df the SLConfigDescriptor announcing 0 bytes is refused: the ES descriptor keeps its three bytes
+   as UnknownData and the Go encoders write the input back (finding C01-K77, fixed) *)
+Lemma esds_slc0_fixed : decode (ex_esds 0) = Ok (treeof (ex_esds 0), []) /\ raw_box false (treeof (ex_esds 0)) = Ok (ex_esds 0) /\
+  match treeof (ex_esds 0) with
+  | MLeaf _ (LEsds 0 0 1 1 0 _ [] _ (DDcd 1 64 21 0 128000 128000 [DDsi 1 [17; 144]] []) [] [6; 0; 2] false) _ => True
+  | _ => False
+  end.
+Proof. vm_compute. repeat split. Qed.
